@@ -67,6 +67,7 @@ func Selftest() int {
 	expectViolation("Ocsp.tla with KeyBy = subject (subject + serial as cache key)", ocspMut("absolute", "subject"), "KeyRight")
 	expectViolation("Refresher.tla with DropWhenBusy = TRUE (a tick that meets a taken mutex is dropped)", tlcrun.Options{SpecDir: sd, Module: "Refresher", Config: "MC_Refresher_drop.cfg", Workers: 2}, "BoundedRefresh")
 	expectViolation("Refresher.tla with LeakOnSibling = TRUE (cleaning up a failed sibling leaks the refresh mutex)", tlcrun.Options{SpecDir: sd, Module: "Refresher", Config: "MC_Refresher_leak.cfg", Workers: 2}, "Live")
+	expectViolation("CrlRepo.tla with LoadedBeforeSwap (the entry is marked loaded before a swap that then fails)", tlcrun.Options{SpecDir: sd, Module: "CrlRepo", Config: "MC_CrlRepo_loadedfirst.cfg", Workers: 4}, "CrashSafe")
 	expectViolation("LockOrder.tla with Registered = TRUE (repository lock asked for under the entry lock)", tlcrun.Options{SpecDir: sd, Module: "LockOrder", Config: "MC_LockOrder_asis.cfg", Workers: 2}, "Ordered")
 	expectViolation("LockOrder.tla with Registered = TRUE: the deadlock itself", tlcrun.Options{SpecDir: sd, Module: "LockOrder", Workers: 2,
 		Config: "SPECIFICATION Spec\nCONSTANTS\n Registered = TRUE\nINVARIANTS NoDeadlock\nCHECK_DEADLOCK FALSE\n"}, "NoDeadlock")
